@@ -4,3 +4,5 @@ import RpyModel.Reservoir
 import RpyModel.Drv.C01
 import RpyModel.Windows
 import RpyModel.Drv.C17
+import RpyModel.Datasets
+import RpyModel.Drv.C20
